@@ -972,7 +972,10 @@ fn generate_right_ctx_state_char_arms(
 
     if !accept_ranges.is_empty() {
         let guard = if accept_ranges.len() > MAX_GUARD_SIZE {
-            let binary_search_table_id = ctx.add_search_table(accept_ranges.into_iter().collect());
+            // Binary search needs a sorted table; the set iterates in arbitrary order
+            let mut accept_ranges: Vec<(char, char)> = accept_ranges.into_iter().collect();
+            accept_ranges.sort();
+            let binary_search_table_id = ctx.add_search_table(accept_ranges);
             let binary_search_fn = ctx.binary_search_fn_ident();
 
             quote!(#binary_search_fn(x, &#binary_search_table_id))
